@@ -53,6 +53,7 @@ codes! { OpCode, OPS:
     CfgAuto = "cfgauto" / 1,       // 0/1
     CfgBuffered = "cfgbuffered" / 1, // 0 = None, n
     CfgPercent = "cfgpercent" / 1, // permille (0..=1000), 2000 = invalid (documented panic)
+    CfgReplace = "cfgreplace" / 1, // 0: *config = Config::default(); 1: save a clone of the configuration; 2: assign the saved clone back
     NewInConfig = "newinconfig" / 0, // Cc::new issued while the configuration is borrowed; tmpl
     Register = "register" / 2,     // owner h, captured h (or -1), + action script
     Clean = "clean" / 1,           // c
